@@ -34,10 +34,16 @@ fn type_max(t: &str) -> u128 {
 impl<'a> G<'a> {
     /// factories that support `kind`; huge blocks are rarer
     fn pick_fac(&mut self, kind: &str) -> usize {
+        // CFB-8 moves one byte per step whatever the block size: a backend that offers more parallel blocks than a
+        // block has bytes (aes on ARMv8: 21 x 16) is a shape of its own - half of the cfb8 scenarios use one
+        let wide = kind.starts_with("cfb8") && self.rng.coin();
         loop {
             let i = self.rng.below(self.facs.len());
             let f = &self.facs[i];
             if !f.supports(kind) {
+                continue;
+            }
+            if wide && f.w() <= f.bs() {
                 continue;
             }
             if f.bs() > 48 && !self.rng.chance(1, if self.thorough { 2 } else { 3 }) {
@@ -717,6 +723,34 @@ fn gen_c10(g: &mut G) {
     let bs = g.bs(f) as u128;
     let bits = ctr_bits(kind).unwrap();
     let iv = g.iv_for(kind, 0);
+    if g.rng.chance(1, 4) {
+        // the core itself: set_block_pos / get_block_pos anywhere in the keystream (for BelT also beyond the
+        // point where the running value s = E(IV) + i wraps around 2^128), then a few blocks
+        let ck = core_of(kind);
+        let w = g.w(f);
+        let max: u128 = if bits == 128 { u128::MAX } else { (1u128 << bits) - 1 };
+        g.new_obj("x", f, &ck, "ks", 0, iv, json!({"zero":1}), "inner");
+        g.cmds.push(json!({"op":"rem","o":"x"}));
+        let nops = g.rng.range(2, 6);
+        for _ in 0..nops {
+            match g.rng.below(3) {
+                0 => {
+                    let e = g.rng.range(1, bits as usize - 1) as u32;
+                    let k = g.rng.below(70) as u128;
+                    let b = *g.rng.pick(&[(1u128 << e) - 1, 1u128 << e, (1u128 << e) + k, max - 64 - k, max / 2 + k,
+                        max / 2 - k, k, max - (max >> 3) + k]);
+                    g.cmds.push(json!({"op":"setbpos","o":"x","v":b.min(max - 64).to_string()}));
+                }
+                1 => {
+                    let n = g.rng.range(1, w + 2);
+                    g.sched_blocks("x", n, w, None, false);
+                }
+                _ => {}
+            }
+            g.cmds.push(json!({"op":"rem","o":"x"}));
+        }
+        return;
+    }
     let span: u128 = bs * g.rng.range(2, 5) as u128;
     // window [base, base + span) of the keystream; far windows start on a block boundary
     let maxblk: u128 = if bits == 128 { u128::MAX / bs - 8 } else { (1u128 << bits) - 10 };
@@ -761,6 +795,9 @@ fn gen_c10(g: &mut G) {
             _ => {
                 let t = *g.rng.pick(&SEEK_TYPES);
                 g.cmds.push(json!({"op":"pos","o":"x","t":t}));
+                if g.rng.chance(1, 3) {
+                    g.cmds.push(json!({"op":"rem","o":"x"}));
+                }
             }
         }
     }
@@ -1205,6 +1242,8 @@ fn gen_c15(g: &mut G) {
     // perturbation unit: block for cbc/cfb/pcbc/ige, byte otherwise
     let pu = if ["cbc", "cfb", "pcbc", "ige"].contains(&kind.as_str()) { bs } else { 1 };
     let units_total = if pu == 1 { (g.rng.range(2, 4) * bs + g.rng.below(bs)).max(3) } else { g.rng.range(2, 2 * w.min(4) + 4) };
+    // (cfb8: sometimes enough bytes for one full parallel chunk of the backend and a bit more)
+    let units_total = if kind == "cfb8" && g.rng.coin() { units_total.max(w + g.rng.range(1, w + 2)) } else { units_total };
     let j = g.rng.below(units_total); // 0-based perturbed unit
     let mut delta = vec![0u8; pu];
     if g.rng.coin() {
